@@ -145,7 +145,7 @@ def exec_case(task, cd):
     return dict(exit=r['exit'], exception=r['exception'], ident=(r['stdout'].splitlines() or [''])[0],
                 stderr=r['stderr'][:400], wall=round(wall, 2), marker=os.path.exists(marker),
                 sandboxes=cd.sandboxes(), child_started=os.path.exists(pidf), child_alive=alive, text=text,
-                given=given)
+                given=given, events=r.get('trace') or [])
 
 
 def compare(c, o):
@@ -240,6 +240,15 @@ def run(ctx):
         if clause:
             bad += 1
             ctx.fail('%s %s' % (clause.split(':')[0], sig(c)), dict(kind='case', case=c, observed=o, clause=clause))
+    # code -> spec: a process killed by the timeout is a HARD_ERROR of the step it belongs to - the execution as a
+    # whole (what runs afterwards, [cleanup], the removal of the sandbox) must be a behaviour of PhaseExec
+    from harness import trace_exec
+    items = [dict(id=sig(c), events=o['events'], argv=['c.case'], files={'c.case': o.get('text')})
+             for c, o in zip(cases, obs) if o.get('events')]
+    if items:
+        trace_exec.validate(ctx, items, 'timeout cases')
+    for o in obs:
+        o.pop('events', None)
     ctx.cov['traces_validated_against_impl'] += len(cases)
     ctx.cov['replay'] = dict(cases=len(cases), killed_expected=sum(1 for c in cases if c['killed']),
                              judged_by_limit_given_at_start=sum(1 for o in obs if o.get('given')),
@@ -275,6 +284,9 @@ def run(ctx):
 
 def replay(ctx, rec):
     r = rec['record']
+    if r.get('kind') == 'trace':
+        from harness import trace_exec
+        return trace_exec.replay(ctx, r)
     with ctx.pool(workers=1) as pool:
         o = pool.map('harness.props.c19:exec_case', [dict(case=r['case'])], deadline=60)[0]
     clause, _ = compare(r['case'], o)
